@@ -11,8 +11,11 @@ resp <nUp> <fb> <rules>            set the response program  → dump of the com
 rq   n:<name> <qtype> rx:<ids>     RequestMatcher.Match      → hit:<byte> | nohit
 rs   n:<name> <qtype> <from> ips:<addrs> rx:<ids>            → hit:<byte> | nohit | emptyname
 cfg  <nUp> <reqfb> <reqrules> <respfb> <resprules> [urls:…]  → ok | builderr
-ask  <dst> <isResp> <q|noq> n:<name> <qtype> rx:<ids> seed:<entries> ans:<table>
-                                                             → trace=… reply=… cache=…
+depth <N>                          MaxDnsLookupDepth of the code under test → ok
+ask  <dst> <isResp> <q|noq> n:<name> <qtype> rx:<ids> ip:<0|1> seed:<entries> ans:<table>
+                                                             → trace=… reply=… | cache=… err=…
+   (the part after " | " is diagnostic: the check compares it but does not call a difference a violation;
+    the response cache is threaded through the asks of one `cfg` scenario)
 rules := '-' | rule (';' rule)*      rule := func ('&' func)* '>' out
 func  := ['!'] fname '(' key '=' val (',' key '=' val)* ')'
 ```
@@ -138,6 +141,8 @@ structure St where
   respFb : Nat := 0xFC
   respProg : Option Prog := none
   nUp : Nat := 0
+  maxDepth : Nat := 3
+  cache : Cache := []       -- the response cache of the running scenario
   explain : Bool := false   -- coverage mode: print a classification of the op instead of the answer
   reqBuilt : Option C11.Built := none    -- the REAL domain matcher (C11 model) built from the request program's AddSet calls
   respBuilt : Option C11.Built := none
@@ -176,14 +181,15 @@ def errStr : Err → String
   | .tooDeep => "toodeep" | .forwardFail => "forwardfail" | .notResponse => "notresponse"
   | .questionMismatch => "questionmismatch"
 
-def upStr : UpRef → String
-  | .asis => "a"
+/-- the as-is resolver is the client's own destination `9.9.9.<dst>` -/
+def upStr (dst : Nat) : UpRef → String
+  | .asis => s!"a{dst}"
   | .up k => s!"u{k}"
 
 def replyStr : Reply → String
   | .answers r ok => s!"ans:{if ok then "ok" else "fail"}:{recsStr r}"
   | .rejected => "ans:ok:-"      -- the client sees an empty answer with rcode success
-  | .error e => "err:" ++ errStr e
+  | .error _ => "err"            -- the error class is diagnostic (printed after " | ")
 
 def keyLine (e : CacheKey × List Rec) : String :=
   s!"{String.ofList e.1.name}/{e.1.qtype}/{scopeStr e.1.scope}={recsStr e.2}"
@@ -204,7 +210,7 @@ def parseSeed (q : Question) (s : String) : Option (CacheKey × List Rec) := do
     pure (⟨n, t, scope⟩, recs)
   | _ => none
 
-/-- answer entry `<depth>.<up>=<resp>`; resp = `F` | `<r|q><s|e>/<E|U|N|D>/<recs>` -/
+/-- answer entry `<depth>.<up>=<resp>`; resp = `F` | `<r|q><s|e>/<E|U|N|D|T|C>/<answer recs>/<authority recs>/<additional recs>` -/
 def parseAns (q? : Option Question) (s : String) : Option ((Nat × UpRef) × Option Resp) := do
   match s.splitOn "=" with
   | [k, v] =>
@@ -214,17 +220,21 @@ def parseAns (q? : Option Question) (s : String) : Option ((Nat × UpRef) × Opt
       let u ← parseUpRef u
       if v == "F" then pure ((d, u), none)
       else match v.splitOn "/" with
-        | [fl, qv, rs] =>
+        | [fl, qv, rs, nss, exs] =>
           let recs ← parseRecs rs
+          let ns ← parseRecs nss
+          let extra ← parseRecs exs
           let isR := fl.toList.contains 'r'
           let ok := fl.toList.contains 's'
           let rq ← match qv with
             | "E" => some q?
             | "U" => some (q?.map fun q => { q with name := upperStr q.name })
             | "N" => some none
-            | "D" => some (q?.map fun q => { q with name := "evil.test.".toList })
+            | "D" => some (q?.map fun q => { q with name := "evil.test.".toList, isIp := false })
+            | "T" => some (q?.map fun q => { q with qtype := (q.qtype + 1) % 65536 })
+            | "C" => some (q?.map fun q => { q with qclass := 3 })
             | _ => none
-          pure ((d, u), some ⟨isR, rq, recs, ok⟩)
+          pure ((d, u), some { isResponse := isR, q := rq, recs := recs, rcodeOk := ok, ns := ns, extra := extra })
         | _ => none
     | _ => none
   | _ => none
@@ -296,7 +306,7 @@ def handleLine (st : St) (line : String) : St × String :=
         | none => "builderror"
       let specDoc := firstMatchDoc rxIdOf (envROf env) (splitRequestRules st.reqSrc) st.reqFb
       (st, if r != .hit spec then s!"MODEL-SPLIT scan={matchResStr r} spec={spec}"
-           else if real != matchResStr r || specDoc != spec then
+           else if real != matchResStr r || (C11.plainName (envROf env).name && specDoc != spec) then
              s!"REAL-MATCHER-DIFFERS real={real} doc-spec={specDoc} oracle={matchResStr r}"
            else matchResStr r)
     | _, _, _, _ => (st, "bad-op")
@@ -314,33 +324,39 @@ def handleLine (st : St) (line : String) : St × String :=
           | none => "builderror"
         let specDoc := firstMatchDoc rxIdOf (envROf env) st.respSrc st.respFb
         (st, if !(r == .emptyName || r == .hit spec) then s!"MODEL-SPLIT scan={matchResStr r} spec={spec}"
-             else if real != matchResStr r || (r != .emptyName && specDoc != spec) then
+             else if real != matchResStr r || (r != .emptyName && C11.plainName (envROf env).name && specDoc != spec) then
                s!"REAL-MATCHER-DIFFERS real={real} doc-spec={specDoc} oracle={matchResStr r}"
              else matchResStr r)
       | none => (st, "bad-op")
     | _, _, _, _, _, _ => (st, "bad-op")
+  | ["depth", n] =>
+    match n.toNat? with
+    | some n => ({ st with maxDepth := n }, "ok")
+    | none => (st, "bad-op")
   | "cfg" :: n :: rfb :: rrules :: sfb :: srules :: _ =>   -- further tokens (upstream URLs) are for the replay reader
     match n.toNat?, parseOut .req rfb, parseRules .req rrules, parseOut .resp sfb, parseRules .resp srules with
     | some n, some rfb, some rrs, some sfb, some srs =>
       let P := compileRequest rrs rfb
       let Q := compile srs sfb
-      ({ st with reqSrc := rrs, reqFb := rfb, reqProg := P, respSrc := srs, respFb := sfb, respProg := Q, nUp := n },
+      ({ st with reqSrc := rrs, reqFb := rfb, reqProg := P, respSrc := srs, respFb := sfb, respProg := Q, nUp := n,
+                 cache := [] },
         if P.isSome && Q.isSome then "ok" else "builderr")
     | _, _, _, _, _ => (st, "bad-op")
-  | ["ask", dst, isResp, hasQ, name, qt, rx, seed, ans] =>
+  | ["ask", dst, isResp, hasQ, name, qt, rx, ipTok, seed, ans] =>
     match dst.toNat?, parseName name, qt.toNat?, parseList "rx:" rx, parseList "seed:" seed,
         parseList "ans:" ans, st.reqProg, st.respProg with
     | some dst, some nm, some qt, some rx, some seed, some ans, some P, some Q =>
-      let q : Question := ⟨nm, qt, rx⟩
+      let q : Question := { name := nm, qtype := qt, rx := rx, isIp := ipTok == "ip:1" }
       let q? := if hasQ == "q" then some q else none
       match seed.mapM (parseSeed q), ans.mapM (parseAns q?) with
       | some seed, some tbl =>
-        let cfg : Cfg := ⟨st.nUp, P, Q⟩
-        let cache0 : Cache := seed.foldl (fun c e => Cache.store c e.1 e.2) []
+        let cfg : Cfg := { nUp := st.nUp, req := P, resp := Q, maxDepth := st.maxDepth }
+        let cache0 : Cache := seed.foldl (fun c e => Cache.store c e.1 e.2) st.cache
         let o := handle cfg cache0 dst (isResp == "1") q? (ansFn tbl)
+        let st := { st with cache := o.cache }
         let keys := (o.cache.map keyLine).mergeSort (fun a b => decide (a ≤ b))
         if st.explain then
-          let q' := q?.getD ⟨[], 0, []⟩
+          let q' := q?.getD noQuestion
           let sel := requestSelect cfg q'
           let fam := (cache0.filter fun e => e.1.name == canonName q'.name && e.1.qtype == q'.qtype).length
           let hit := match sel with
@@ -348,7 +364,8 @@ def handleLine (st : St) (line : String) : St × String :=
             | _ => false
           (st, s!"ask route:{reqSelStr sel} cached-family:{if fam == 0 then "0" else "1+"} hit:{boolStr hit} queries:{o.trace.length} reply:{(replyStr o.reply).takeWhile (· != ':')}")
         else
-        (st, s!"trace={",".intercalate (o.trace.map upStr)} reply={replyStr o.reply} cache={";".intercalate keys}")
+        let errc := match o.reply with | .error e => errStr e | _ => "-"
+        (st, s!"trace={",".intercalate (o.trace.map (upStr dst))} reply={replyStr o.reply} | cache={";".intercalate keys} err={errc}")
       | _, _ => (st, "bad-op")
     | _, _, _, _, _, _, _, _ => (st, "bad-op")
   | _ => (st, "bad-op")
